@@ -28,6 +28,9 @@
 extern "C" int __lsan_do_recoverable_leak_check();
 #endif
 
+#ifdef PBT_COVERAGE
+extern "C" void __gcov_dump(void);
+#endif
 namespace pbt {
 
 inline void forked(Ctx &ctx, const std::function<void(Ctx &)> &body, bool leakCheck = false)
@@ -75,6 +78,9 @@ inline void forked(Ctx &ctx, const std::function<void(Ctx &)> &body, bool leakCh
       off += (size_t)w;
     }
     close(fd[1]);
+#ifdef PBT_COVERAGE
+    __gcov_dump();  // coverage audit builds only (tools/covaudit.py): _exit skips gcov's atexit writer
+#endif
     _exit(0);  // no static destructors: runtimes of the code under test are still alive
   }
   close(fd[1]);
